@@ -60,6 +60,11 @@ pub enum WOp {
     Flush,
     Shutdown,
     Sleep(u32),
+    /// wait until this endpoint's reader script has finished (application-level ordering)
+    WaitOwnReader,
+    /// wait until the peer endpoint's writer script has finished (stands for an application-level
+    /// "I am done" message; E2E engine only)
+    WaitPeerWriter,
     /// drop the write half (ends the script)
     Drop,
 }
@@ -119,6 +124,8 @@ pub struct EndpointLog {
     pub reader_done: bool,
     /// `written` value at each successful flush / shutdown: (t_us, written, is_shutdown)
     pub sync_points: Vec<(u64, u64, bool)>,
+    /// the peer endpoint's log (E2E engine), for application-level ordering ops
+    pub peer: Option<SharedLog>,
     /// keep the bytes that were read (SP engine: verified post hoc)
     pub keep_data: bool,
     pub read_data: Vec<u8>,
@@ -206,6 +213,19 @@ pub async fn run_writer(mut w: UtpStreamWriteHalf, mut ops: tokio::sync::mpsc::U
                 }
             }
             WOp::Sleep(ms) => tokio::time::sleep(std::time::Duration::from_millis(ms as u64)).await,
+            WOp::WaitOwnReader => {
+                while !log.lock().reader_done {
+                    tokio::time::sleep(std::time::Duration::from_millis(5)).await;
+                }
+            }
+            WOp::WaitPeerWriter => {
+                let peer = log.lock().peer.clone();
+                if let Some(p) = peer {
+                    while !p.lock().writer_done {
+                        tokio::time::sleep(std::time::Duration::from_millis(5)).await;
+                    }
+                }
+            }
             WOp::Drop => {
                 dropped = true;
                 break;
